@@ -366,7 +366,7 @@ impl Monitor for C03 {
             if must_succeed {
                 if !out.ok() {
                     fail(acc, "threshold_rejected_wrongly", format!("realised other amount {x}, threshold {thr}: failed with {:?}", out.err));
-                } else if !b2.diff(&canon).is_empty() {
+                } else if !crate::world::diff_on(&obs.ix, &b2, &canon).is_empty() {
                     fail(acc, "threshold_changed_outcome", format!("threshold {thr} (realised {x}) produced a different end state"));
                 }
             } else {
